@@ -18,13 +18,15 @@ META = {
         "quick": "vec_1d_interp: rows of M in {2,3,4} nodes, batches of 1 and 2 rows (M=3), all symbolic, non-decreasing with plateaus allowed, query strictly inside; grid_slice_interp: 2-D (3x2) and 3-D (2x3x2) grids with symbolic data and axes, every axis position, by index and by name; data: every row of all six shipped tables (one query per row, symbolic column index)",
         "thorough": "M up to 5, batches of 2 rows with M=4; same grids; second solver",
     },
-    "outside_bounds": ["NssGrid.write/read HDF5 and FITS round trips (h5py / astropy.io C and NumPy I/O): not encoded, not claimed", "rows longer than 5 nodes (each output depends on one bracket only)", "IEEE rounding (REAL mode)",
+    "outside_bounds": ["NssGrid FITS round trips (astropy.io): not encoded, not claimed; HDF5: the library itself is modelled in memory (documented group/dataset semantics, validated against real h5py on the same histories) -- byte-level storage and dtype conversion are outside", "rows longer than 5 nodes (each output depends on one bracket only)", "IEEE rounding (REAL mode)",
                        "grids of 1 or 4 dimensions for the slice bookkeeping"],
     "stubs": ["scipy.interpolate.interp1d -> reference piecewise-linear interpolation along `axis` (forks on the bracket, ValueError outside the axis range)",
-              "NssGrid -> duck-typed GridStub with the same constructor checks (NDDataArray needs real ndarrays)"],
+              "NssGrid -> duck-typed GridStub with the same constructor checks (NDDataArray needs real ndarrays)",
+              "h5py -> symnp.h5stub (in-memory groups / datasets / attrs; create_* refuses existing names, require_* returns existing objects untouched, file modes r/w/w-/a)",
+              "astropy NDDataArray -> holder of the data array (HDF5 job; the real NssGrid constructor, meta and axes code runs)"],
     "assumptions": ["REAL mode", "rows non-decreasing, query strictly inside (row[0] < x < row[-1]) as in the statement's quantifier"],
 }
-LEDGER = {"quick": 220, "thorough": 330}
+LEDGER = {"quick": 238, "thorough": 330}
 MOD = "nuspacesim.utils.interp"
 
 
@@ -162,6 +164,173 @@ def job_pexit(version):
     return harness.plain_job(f"data nu2tau_pexit.{version}", lambda: tables.check_pexit_table(version))
 
 
+# ---------------------------------------------------------------------------------
+# HDF5 write/read histories (h5py modelled in memory, data and axes symbolic)
+def _grid_ns():
+    class NDStub:
+        """astropy NDDataArray stand-in: holds the data array (the real class needs real ndarrays)"""
+
+        def __init__(self, data, *a, **k):
+            self._data = data
+
+        data = property(lambda self: self._data)
+        ndim = property(lambda self: self._data.ndim)
+        shape = property(lambda self: self._data.shape)
+
+    return load.load("nuspacesim.utils.grid", {"NDDataArray": NDStub})
+
+
+def _mkgrid(ns, tag, shape, names, axis_tag=None):
+    data = SymArray(_np.array([SV(t=z3.Real(f"{tag}_d{'_'.join(map(str, i))}")) for i in _np.ndindex(*shape)], dtype=object).reshape(shape), "float")
+    axes = [symarr([f"{axis_tag or tag}_a{k}_{j}" for j in range(n)]) for k, n in enumerate(shape)]
+    return ns["NssGrid"](data, axes, list(names))
+
+
+def _grid_eq(a, b):
+    """term identity of data, axes and axis names"""
+    if tuple(a.data.shape) != tuple(b.data.shape) or list(a.axis_names) != list(b.axis_names) or len(a.axes) != len(b.axes):
+        return False
+    same = lambda x, y: SymArray(x).shape == SymArray(y).shape and all(SV.of(p).term().eq(SV.of(q).term()) for p, q in zip(SymArray(x).a.reshape(-1), SymArray(y).a.reshape(-1)))  # noqa
+    return same(a.data, b.data) and all(same(x, y) for x, y in zip(a.axes, b.axes))
+
+
+HDF5_SCENARIOS = ("fresh file", "rewrite in place (overwrite=True), same names and shape, new values", "rewrite in place with a different shape", "two groups in one file",
+                  "second write without overwrite is refused and leaves the file unchanged", "rewrite in place with other axis names")
+
+
+def hdf5_run():
+    def run(C):
+        import sys
+
+        from symnp import h5stub
+
+        ns = _grid_ns()
+        W, R = ns["hdf5_nssgrid_writer"], ns["hdf5_nssgrid_reader"]
+        old = sys.modules.get("h5py")
+        sys.modules["h5py"] = h5stub.module()
+        claims = {}
+        try:
+            names = ["log_e_nu", "beta_rad"]
+            for sc in HDF5_SCENARIOS:
+                h5stub.reset()
+                g1 = _mkgrid(ns, "g1", (2, 3), names)
+                g2 = _mkgrid(ns, "g2", (2, 3), names)
+                try:
+                    if sc == "fresh file":
+                        W(g1, "t.h5")
+                        ok = _grid_eq(R("t.h5"), g1)
+                        W(g2, "u.h5", path="/pexit", overwrite=True)
+                        ok = ok and _grid_eq(R("u.h5", path="/pexit"), g2) and _grid_eq(R("t.h5"), g1)
+                    elif sc.startswith("rewrite in place (overwrite=True)"):
+                        W(g1, "t.h5", overwrite=True)
+                        W(g2, "t.h5", overwrite=True)
+                        ok = _grid_eq(R("t.h5"), g2)
+                    elif sc == "rewrite in place with a different shape":
+                        g3 = _mkgrid(ns, "g3", (3, 2), names)
+                        W(g1, "t.h5", overwrite=True)
+                        W(g3, "t.h5", overwrite=True)
+                        ok = _grid_eq(R("t.h5"), g3)
+                    elif sc == "rewrite in place with other axis names":
+                        g4 = _mkgrid(ns, "g4", (2, 3), ["e_tau_frac", "beta_rad"])
+                        W(g1, "t.h5", overwrite=True)
+                        W(g4, "t.h5", overwrite=True)
+                        ok = _grid_eq(R("t.h5"), g4)
+                    elif sc == "two groups in one file":
+                        W(g1, "t.h5", path="/a", overwrite=True)
+                        W(g2, "t.h5", path="/b", overwrite=True)
+                        W(g1, "t.h5", path="/b", overwrite=True)
+                        W(g2, "t.h5", path="/a", overwrite=True)
+                        ok = _grid_eq(R("t.h5", path="/a"), g2) and _grid_eq(R("t.h5", path="/b"), g1)
+                    else:
+                        W(g1, "t.h5", overwrite=True)
+                        try:
+                            W(g2, "t.h5", overwrite=False)
+                            refused = False
+                        except (FileExistsError, OSError, ValueError):
+                            refused = True
+                        ok = refused and _grid_eq(R("t.h5"), g1)
+                except Exception as ex:  # noqa
+                    ok = False
+                    sc = sc  # the claim below records the failure
+                    claims[f"HDF5 ({sc}): no exception"] = z3.BoolVal(False)
+                    C.events.append(("hdf5-exception", sc, f"{type(ex).__name__}: {ex}"))
+                claims[f"HDF5 ({sc}): the grid read back equals the grid last written there (data, axes, axis names: identical terms)"] = z3.BoolVal(bool(ok))
+        finally:
+            if old is None:
+                sys.modules.pop("h5py", None)
+            else:
+                sys.modules["h5py"] = old
+        return harness.Out(claims=claims)
+
+    return run
+
+
+def job_hdf5(tier):
+    return harness.run_job("NssGrid HDF5 write/read histories (h5py modelled in memory)", hdf5_run(), timeout_ms=10000, twin=False)
+
+
+def _replay_hdf5(ob):
+    """the same histories with real h5py, real NssGrid and real files"""
+    import os
+    import tempfile
+    import warnings
+
+    import numpy as np
+
+    from nuspacesim.utils.grid import NssGrid
+
+    warnings.simplefilter("ignore")
+    rng = np.random.default_rng(18)
+
+    def mk(shape, names):
+        return NssGrid(rng.uniform(0, 1, shape), [np.sort(rng.uniform(0, 10, n)) for n in shape], list(names))
+
+    def eq(a, b):
+        return a.data.shape == b.data.shape and np.array_equal(a.data, b.data) and list(a.axis_names) == list(b.axis_names) and all(np.array_equal(x, y) for x, y in zip(a.axes, b.axes))
+
+    names = ["log_e_nu", "beta_rad"]
+    sc = ob.split("HDF5 (", 1)[1].split("): ")[0] if "HDF5 (" in ob else HDF5_SCENARIOS[1]
+    with tempfile.TemporaryDirectory() as d:
+        f = os.path.join(d, "t.h5")
+        g1, g2 = mk((2, 3), names), mk((2, 3), names)
+        try:
+            if sc == "fresh file":
+                g1.write(f, format="hdf5")
+                bad = not eq(NssGrid.read(f, format="hdf5"), g1)
+            elif sc.startswith("rewrite in place (overwrite=True)"):
+                g1.write(f, format="hdf5", overwrite=True)
+                g2.write(f, format="hdf5", overwrite=True)
+                bad = not eq(NssGrid.read(f, format="hdf5"), g2)
+            elif sc == "rewrite in place with a different shape":
+                g3 = mk((3, 2), names)
+                g1.write(f, format="hdf5", overwrite=True)
+                g3.write(f, format="hdf5", overwrite=True)
+                bad = not eq(NssGrid.read(f, format="hdf5"), g3)
+            elif sc == "rewrite in place with other axis names":
+                g4 = mk((2, 3), ["e_tau_frac", "beta_rad"])
+                g1.write(f, format="hdf5", overwrite=True)
+                g4.write(f, format="hdf5", overwrite=True)
+                bad = not eq(NssGrid.read(f, format="hdf5"), g4)
+            elif sc == "two groups in one file":
+                g1.write(f, format="hdf5", path="/a", overwrite=True)
+                g2.write(f, format="hdf5", path="/b", overwrite=True)
+                g1.write(f, format="hdf5", path="/b", overwrite=True)
+                g2.write(f, format="hdf5", path="/a", overwrite=True)
+                bad = not (eq(NssGrid.read(f, format="hdf5", path="/a"), g2) and eq(NssGrid.read(f, format="hdf5", path="/b"), g1))
+            else:
+                g1.write(f, format="hdf5", overwrite=True)
+                try:
+                    g2.write(f, format="hdf5", overwrite=False)
+                    bad = True
+                except Exception:  # noqa
+                    bad = not eq(NssGrid.read(f, format="hdf5"), g1)
+        except Exception as ex:  # noqa
+            return {"reproduced": True, "key": f"NssGrid HDF5 ({sc}): raises", "detail": f"{type(ex).__name__}: {ex}"}
+    if bad:
+        return {"reproduced": True, "key": f"NssGrid HDF5 ({sc}): the grid read back differs from the grid written", "detail": f"real h5py, real files: history '{sc}' does not read back the grid last written"}
+    return {"reproduced": False, "key": None, "detail": f"real h5py: history '{sc}' reads back the grid written"}
+
+
 def jobs(tier, seed):
     out = []
     cfgs = [(2, 1), (3, 1), (4, 1), (3, 2)] if tier == "quick" else [(2, 1), (3, 1), (4, 1), (5, 1), (3, 2), (4, 2)]
@@ -172,6 +341,7 @@ def jobs(tier, seed):
             for by in (False, True):
                 out.append((f"slice{shape}{ax}{by}", "job_slice", {"shape": list(shape), "axis": ax, "by_name": by, "tier": tier}))
     out.append(("sliceout", "job_slice_outside", {"tier": tier}))
+    out.append(("hdf5", "job_hdf5", {"tier": tier}))
     for v in ("1", "2", "3"):
         for part in range(4):
             out.append((f"cdf{v}.{part}", "job_cdf", {"version": v, "part": part, "nparts": 4}))
@@ -196,6 +366,8 @@ def replay(v):
     job = v.get("job", "")
     if job.startswith("data "):
         return tables.replay_data(v)
+    if job.startswith("NssGrid HDF5"):
+        return _replay_hdf5(v["obligation"])
     m = v.get("model") or {}
     if job.startswith("vec_1d_interp"):
         M = int(job.split("M=")[1].split(",")[0])
@@ -240,11 +412,25 @@ def validate(seed, tier):
         xs, ys, x, y = _real_vec(v, M, n)
         return {"y": y}
 
-    return harness.validate(vec_run(M, n), sampler, real, 60, seed)
+    n_ok = harness.validate(vec_run(M, n), sampler, real, 60, seed)
+    # the in-memory h5py model against real h5py: every history of the HDF5 job with real files
+    fails = []
+    for sc in HDF5_SCENARIOS:
+        ob = f"HDF5 ({sc}): the grid read back equals the grid last written there (data, axes, axis names: identical terms)"
+        r = _replay_hdf5(ob)
+        if r["reproduced"]:
+            fails.append({"obligation": ob, "verdict": "sat", "kind": "claim", "time_s": 0.0, "model": {}, "detail": r["detail"],
+                          "reason": "history fails with real h5py and real files (concrete run; also validates the in-memory h5py model)"})
+    if isinstance(n_ok, tuple):
+        return n_ok[0] + len(HDF5_SCENARIOS), list(n_ok[1]) + fails
+    return (n_ok + len(HDF5_SCENARIOS), fails) if fails else n_ok + len(HDF5_SCENARIOS)
+
+
+VALIDATE_JOB = "NssGrid HDF5 write/read histories (real h5py)"
 
 
 MANIFEST_ENTRY = {
     "level_text": "Partial claim. (a) The real vec_1d_interp (with left_shift/right_shift) is executed symbolically on arbitrary non-decreasing rows (plateaus allowed) of up to 4 (quick) / 5 (thorough) nodes, batches of up to 2 rows, query strictly inside: nlsat proves the result equals piecewise-linear interpolation, exactly one bracket per row, x1-x0 != 0. (b) The real grid_slice_interp is executed on 2-D and 3-D grids with symbolic data/axes for every axis position: dropped axis/name, linear blend of neighbouring sub-grids, exact sub-grid at nodes, rejection outside the range. (c) Every row of all six shipped nupyprop tables is checked by one z3 query per row with the column index symbolic (axes strictly increasing, CDF rows non-decreasing, first column 0, last within 1e-15 of 1, exit probabilities in [0,1], smallest reachable tau energy above the tau mass), with witness twins.",
-    "level_note": "NOT covered: NssGrid HDF5/FITS write/read round trips (h5py/astropy I/O, C code) -- that clause of C18 is not claimed. interp1d and NssGrid are stubs (reference interpolation / duck-typed holder). REAL arithmetic. Tables are read with the repository's own reader at run time.",
+    "level_note": "HDF5 round trips: the real hdf5_nssgrid_writer / reader and NssGrid constructor run on symbolic grids against an in-memory model of h5py for six write/read histories (fresh file, in-place rewrites, two groups, refused overwrite); read-back equality is term identity; the model is validated against real h5py on the same histories at every run. NOT covered: FITS round trips (astropy.io), byte-level storage. interp1d and NssGrid are stubs (reference interpolation / duck-typed holder). REAL arithmetic. Tables are read with the repository's own reader at run time.",
     "technique": "symbolic execution of the real NumPy source + z3 nlsat; per-row z3 queries with symbolic index over the shipped tables",
 }
